@@ -6,6 +6,7 @@ Import ListNotations.
 From Coq Require Import ZArith.
 From CXV Require Import Gen.TokTy Gen.ParserTables Parse.Balanced Gen.Blocks Parse.BlocksSM.
 From CXV Require Import Base.Regex Base.Cost Gen.LexRules Lex.PlyLoop Gen.StreamTables Stream.TokBuf Fmt.TokFmt PP.Filters Misc.ReprModel Gen.Schema Parse.Fold Parse.Declarator Parse.DeclSpec Parse.EnumList Parse.BaseClause Parse.NsHeader Parse.Specs Parse.VarStmt Parse.FnTail Parse.Init Parse.Members Parse.MethodTail Parse.Template Parse.PQName Parse.Using Parse.EnumDecl Parse.ClassEnum Parse.TemplateArg Parse.CtorDtor Parse.ParamsX Parse.DeclStmt Parse.TemplateStmt.
+From CXV Require Parse.Requires.
 Open Scope N_scope.
 
 Definition nlen {A} (l : list A) : N := N.of_nat (length l).
@@ -756,8 +757,17 @@ Definition run_decl_stmt (args : list N) : list N :=
   | [] => [1; 0]
   end.
 
+(* 107: a requires-clause behind the `requires` keyword.  Output: 0, rest length, value length, value tokens *)
+Definition run_requires (args : list N) : list N :=
+  let toks := dec_tks args in
+  match Requires.requires_clause (S (length toks)) (S (length toks)) toks with
+  | DOk (v, rest) => 0 :: nlen rest :: nlen v :: enc_tks v
+  | DErr e => [1; e]
+  end.
+
 Definition run_case (cmd : N) (args : list N) : list N :=
   match cmd, args with
+  | 107, _ => run_requires args
   | 106, _ => run_decl_stmt args
   | 105, _ => run_concept args
   | 104, _ => run_template_stmt args
